@@ -11,7 +11,7 @@ ASSUME = [
 ]
 KEYS = {"bytes-wrong", "bytes-missing", "eof-early", "eof-missing", "read-blocked", "accept-blocked", "call-blocked",
         "session-died", "session-not-closed", "conn-not-closed", "count-mismatch", "open-on-closed", "accept-on-closed",
-        "open-refused", "accept-failed", "write-refused", "write-after-close"}
+        "open-refused", "accept-failed", "write-refused", "write-after-close", "close-blocked:accept-backlog-full"}
 RULE = ("behaviours of MuxGen with connection resets, active session closes by either side, the inactivity timer of one endpoint, "
         "parked Read/Accept calls, and (feature gates) goroutines parked at the labelled schedule points of OpenStream, of new-stream "
         "reception, of the timer and of AddConnection while other steps run; exhaustive BFS for small constants, TLC -simulate beyond; "
@@ -41,7 +41,25 @@ def run(ctx):
         ("open_gate", C(nc=2, ns=2, units=1, maxwrite=1, feat='"sessclose","fault","blockread","gates"'), 40, 0, n(250, 4000), 2,
          {"gates": True}),
     ]
-    return muxprop.run_property(ctx, LEVEL, ASSUME, KEYS, mcs, gens, RULE)
+    return muxprop.run_property(ctx, LEVEL, ASSUME, KEYS, mcs, gens, RULE, extra=backlog)
+
+
+def backlog(ctx):
+    """Defect D13 (known finding): spec/AcceptBacklog.tla + the scenario on the real Session."""
+    import lib
+    ok = lib.run_tlc(ctx, "AcceptBacklog", "AcceptBacklog.cfg", {"ACCEPTS": 0, "DEV": ""}, tag="backlog_ideal")
+    lib.require_ok(ok, "AcceptBacklog ideal")
+    bad = lib.run_tlc(ctx, "AcceptBacklog", "AcceptBacklog.cfg", {"ACCEPTS": 0, "DEV": '"PushUnderLock"'},
+                      tag="backlog_code", expect_violation=True)
+    if bad.ok:
+        raise lib.Inconclusive("AcceptBacklog: the code-faithful configuration no longer produces its counter-example")
+    res = lib.run_go(ctx, "multiplex", "TestVerifC12Backlog", timeout=300)
+    lib.collect_go(ctx, res)
+    if res["stats"].get("inconclusive"):
+        raise lib.Inconclusive("backlog scenario: Close blocked without a visible lock cycle: %s" % res.get("notes"))
+    ctx.log("backlog scenario: %d violations" % len(res.get("violations", [])))
+    return {"evaluations": res["evaluations"], "distinct_nontrivial": res["distinct_nontrivial"], "samples": res["samples"][:1],
+            "traces": res["evaluations"]}
 
 
 replay = muxprop.replay_file
